@@ -24,7 +24,8 @@ META = {
         'quick': 'block CA-C(-O1)(-O2) (two symmetric oxygens): 4 input atoms; one atom name per case is an arbitrary string of 1-2 characters (symbolic), the others '
                  'come from 3 menus (canonical, swapped, unrelated), atom order identity / reversed, nothing missing / O2 missing / CA missing, '
                  'optional extra oxygen attached to CA; ring block with two adjacent atoms missing; two-residue molecules '
-                 '(carboxyl/amide: same skeleton, different elements) with scrambled names',
+                 '(carboxyl/amide: same skeleton, different elements) with scrambled names; requested modification lists with none '
+                 'entries in every position (C19 repair clause)',
         'thorough': 'plus branched block N-CA(-CB)-C and ring block of 4 with one hetero atom; two symbolic names at once on the carboxyl block',
     },
     'stubs': ['vermouth.processors.repair_graph.ISMAGS -> subclass running largest_common_subgraph under NoTracing (asserts '
@@ -58,6 +59,12 @@ def force_field():
             block.add_edges_from(spec['edges'])
             ff.blocks[name] = block
             ff.reference_graphs[name] = block
+        from vermouth.molecule import Link
+        mod = Link(force_field=ff, name='ME')
+        mod.add_node('CA', atomname='CA', PTM_atom=False, element='C')
+        mod.add_node('CM', atomname='CM', PTM_atom=True, element='C')
+        mod.add_edge('CA', 'CM')
+        ff.modifications['ME'] = mod
         _FF['ff'] = ff
     return _FF['ff']
 
@@ -73,6 +80,11 @@ def install():
                     for node, attrs in graph.nodes(data=True):
                         assert type(node) is int and type(attrs.get('element')) is str, 'ISMAGS input not concrete'
                 found = list(ISMAGS.largest_common_subgraph(self, symmetry))
+            return iter(found)
+
+        def subgraph_isomorphisms_iter(self, symmetry=True):
+            with no_tracing():
+                found = list(ISMAGS.subgraph_isomorphisms_iter(self, symmetry))
             return iter(found)
     rg.ISMAGS = NativeISMAGS
     rg.LOGGER = RecLogger()
@@ -246,6 +258,68 @@ def check_two_residues(name: str) -> str:
     return ok()
 
 
+REQUESTS = [None, ['none'], ['ME'], ['none', 'ME'], ['ME', 'none'], ['none', 'ME', 'none']]
+
+
+def _repair_with_request(request, name, with_methyl):
+    from vermouth.molecule import Molecule
+    from vermouth.system import System
+    rg = install()
+    ff = force_field()
+    spec = BLOCKS['carboxyl']
+    mol = Molecule(force_field=ff)
+    keys = {}
+    for key, (atom, element) in enumerate(spec['atoms']):
+        mol.add_node(key, atomname=atom, element=element, resname='carboxyl', resid=1, chain='A', atomid=key + 1)
+        keys[atom] = key
+    for a, b in spec['edges']:
+        mol.add_edge(keys[a], keys[b])
+    if with_methyl:
+        mol.add_node(4, atomname=name, element='C', resname='carboxyl', resid=1, chain='A', atomid=5)
+        mol.add_edge(4, keys['CA'])
+    if request is not None:
+        for key in mol.nodes:
+            mol.nodes[key]['modification'] = list(request)
+    system = System(force_field=ff)
+    system.add_molecule(mol)
+    rg.RepairGraph(include_graph=False).run_system(system)
+    out = system.molecules[0]
+    atoms = sorted((out.nodes[k]['atomname'], out.nodes[k].get('element'), bool(out.nodes[k].get('PTM_atom'))) for k in out.nodes)
+    names = {k: out.nodes[k]['atomname'] for k in out.nodes}
+    edges = sorted(tuple(sorted((names[a], names[b]))) for a, b in out.edges)
+    return atoms, edges
+
+
+def check_requested(name: str) -> str:
+    """
+    pre: 1 <= len(name) <= 2
+    post: _ == ''
+    """
+    return requested_impl(name)
+
+
+def requested_impl(name):
+    # (no contract here: CrossHair enforces the contracts of callees, and the C19 check calls this too)
+    # a requested modification list: 'none' entries are no-ops wherever they stand; with the modification requested the
+    # residue ends up with exactly the atoms of block + modification, bonded as declared
+    request = REQUESTS[PART['request']]
+    got = _repair_with_request(request, name, PART['with_methyl'])
+    effective = [m for m in (request or []) if m != 'none']
+    if request is None:
+        return ok()            # covered by check_repair
+    reference = _repair_with_request(effective or ['none'], name, PART['with_methyl'])
+    if got != reference:
+        return "a 'none' entry in the modification request changed the repaired residue"
+    atoms, edges = got
+    names = sorted(a[0] for a in atoms)
+    want = ['C', 'CA', 'O1', 'O2'] + (['CM'] if effective else [])
+    if names != sorted(want):
+        return 'after repair the residue does not have exactly the atoms of the block plus the requested modification (surplus atoms removed)'
+    if effective and ('CA', 'CM') not in edges:
+        return 'the atom of the requested modification is not bonded as declared'
+    return ok()
+
+
 def warmup():
     global PART
     saved = PART
@@ -258,6 +332,9 @@ def warmup():
             check_repair(*args)
     PART = {'pair': ['carboxyl', 'amide'], 'sym_res': 2, 'sym_atom': 3}
     check_two_residues('X4')
+    for req in range(len(REQUESTS)):
+        PART = {'request': req, 'with_methyl': req % 2 == 0}
+        check_requested('CM')
     PART = saved
 
 
@@ -280,6 +357,13 @@ def selftest(seed):
         runs += 1
         if res != ok():
             failures.append('check_repair%r %r -> %s' % (tuple(names), PART, res))
+    for req in range(len(REQUESTS)):
+        for wm in (False, True):
+            PART = {'request': req, 'with_methyl': wm}
+            res = check_requested(rng.choice(['CM', 'X', 'O1']))
+            runs += 1
+            if res != ok():
+                failures.append('check_requested %r -> %s' % (PART, res))
     for pair in (['carboxyl', 'amide'], ['amide', 'carboxyl'], ['carboxyl', 'carboxyl']):
         PART = {'pair': pair, 'sym_res': 2, 'sym_atom': 3}
         res = check_two_residues(rng.choice(['X4', 'A', 'zz']))
@@ -326,6 +410,10 @@ def cases(tier):
             for sym in ([0], [1]):
                 out.append({'fn': 'check_repair', 'part': {'block': 'five', 'order': order, 'missing': gone, 'extra': False, 'sym': sym, 'fixed': fixed},
                             'label': 'repair[five %s missing=M1+X+M3 names=%s sym%s]' % (order, ','.join(fixed), sym), 'timeout': 900, 'path_timeout': 60})
+    for req in range(len(REQUESTS)):
+        for wm in (False, True):
+            out.append({'fn': 'check_requested', 'part': {'request': req, 'with_methyl': wm},
+                        'label': 'requested[%s methyl%d]' % (REQUESTS[req], wm), 'timeout': 900, 'path_timeout': 60, 'twin': req == 2})
     for pair in (['carboxyl', 'amide'], ['amide', 'carboxyl'], ['carboxyl', 'carboxyl']):
         for sym_res in (1, 2):
             for sym_atom in (0, 3):
